@@ -1,0 +1,105 @@
+//go:build verif
+
+// Contracts and ghost/spec functions for package operators, read by the /verif
+// condition generator (govc). Compiled only with -tags verif; adds no behaviour.
+package operators
+
+import (
+	"github.com/coreruleset/crs-toolchain/v2/utils"
+)
+
+func forall(lo, hi int, p func(int) bool) bool {
+	for k := lo; k < hi; k++ {
+		if !p(k) {
+			return false
+		}
+	}
+	return true
+}
+
+func exists(lo, hi int, p func(int) bool) bool {
+	for k := lo; k < hi; k++ {
+		if p(k) {
+			return true
+		}
+	}
+	return false
+}
+
+func implies(a, b bool) bool { return !a || b }
+
+// SpecDelta: effect of the byte at j on the nesting depth (unescaped parentheses only).
+func SpecDelta(s string, j int) int {
+	if j < 0 || j >= len(s) {
+		return 0
+	}
+	if s[j] == '(' && !utils.SpecEscaped(s, j) {
+		return 1
+	}
+	if s[j] == ')' && !utils.SpecEscaped(s, j) {
+		return -1
+	}
+	return 0
+}
+
+// SpecDepth: nesting depth right before index i, for a group whose body starts at f.
+func SpecDepth(s string, f, i int) int {
+	if i <= f {
+		return 1
+	}
+	return SpecDepth(s, f, i-1) + SpecDelta(s, i-1)
+}
+
+// SpecCloseFrom: first index e >= i at which the group opened before f is closed
+// (depth after e is <= 0), or -1.
+func SpecCloseFrom(s string, f, i int) int {
+	if i >= len(s) {
+		return -1
+	}
+	if SpecDepth(s, f, i+1) <= 0 {
+		return i
+	}
+	return SpecCloseFrom(s, f, i+1)
+}
+
+// SpecCloseIdx: index of the parenthesis closing the group whose body starts at f, or -1.
+func SpecCloseIdx(s string, f int) int { return SpecCloseFrom(s, f, f) }
+
+// SpecBar: some '|' at depth 1 in s[f:i].
+func SpecBar(s string, f, i int) bool {
+	if i <= f {
+		return false
+	}
+	return SpecBar(s, f, i-1) || (i-1 < len(s) && s[i-1] == '|' && SpecDepth(s, f, i-1) == 1)
+}
+
+//@ lemma LemmaCloseFrom
+//@   tags C19 C02
+//@   requires 0 <= f && f <= i && i <= len(s)
+//@   decreases len(s) - i
+//@   ensures SpecCloseFrom(s, f, i) == -1 || (i <= SpecCloseFrom(s, f, i) && SpecCloseFrom(s, f, i) < len(s))
+//@   ensures implies(SpecCloseFrom(s, f, i) >= 0, SpecDepth(s, f, SpecCloseFrom(s, f, i)+1) <= 0)
+//@   ensures implies(SpecCloseFrom(s, f, i) >= 0, forall(i+1, SpecCloseFrom(s, f, i)+1, func(j int) bool { return SpecDepth(s, f, j) > 0 }))
+func LemmaCloseFrom(s string, f, i int) {
+	if i >= len(s) {
+		return
+	}
+	if SpecDepth(s, f, i+1) <= 0 {
+		return
+	}
+	LemmaCloseFrom(s, f, i+1)
+}
+
+//@ contract Operator.findGroupBodyEnd
+//@   tags C19 C02
+//@   opt termination C19
+//@   results end alt
+//@   requires 0 <= groupBodyStart && groupBodyStart <= len(input)
+//@   requires SpecCloseIdx(input, groupBodyStart) >= 0
+//@   use entry LemmaCloseFrom(input, groupBodyStart, groupBodyStart)
+//@   ensures end == SpecCloseIdx(input, groupBodyStart) - 1
+//@   ensures alt == SpecBar(input, groupBodyStart, SpecCloseIdx(input, groupBodyStart)+1)
+//@   loop 0 invariant groupBodyStart <= index && index <= SpecCloseIdx(input, groupBodyStart)+1
+//@   loop 0 invariant parensCounter == SpecDepth(input, groupBodyStart, index)
+//@   loop 0 invariant hasAlternation == SpecBar(input, groupBodyStart, index)
+//@   loop 0 decreases SpecCloseIdx(input, groupBodyStart) + 1 - index
